@@ -1,6 +1,6 @@
 #!/bin/bash
 # tools/collect_seed.sh Cxx [suffix] : collect patch + demo from /tmp/seeds/Cxx, confirm demo fails with / passes without the change
-P=$1; S=${2:-}; WT=/tmp/seeds/$P; OUT=/verif/seeded/$P$S
+P=$1; S=${2:-}; WT=${SEEDROOT:-/tmp/seeds}/$P; OUT=/verif/seeded/$P$S
 mkdir -p $OUT
 git -C $WT diff -- gcmpy > $OUT/patch.diff
 cp $WT/demo.py $OUT/demo.py || exit 3
